@@ -1195,3 +1195,85 @@ def integer_digit_rule(ctx, rid):
                    '(a 60-qubit all-ones initial state is prepared with a single 1)', m.rel, (bad[0].lineno if bad else fn.lineno))
     if n == 0:
         raise AnalysisError(f'{rid}: no digit-extraction loop found')
+
+
+def factoring_rule(ctx, rid):
+    """linalg.factor_state_vector / factor_density_matrix, which the product-state container uses to split sub-states, by interpretation on labelled product tensors."""
+    import itertools
+    from .. import fdx
+    repo = ctx.repo
+    ctx.rule(rid, 'factoring of product tensors: interpreting cirq.linalg.transformations.factor_state_vector and factor_density_matrix (with the helpers they call) with validate=True on the '
+             'product of three different one-qubit states, for every ordered choice of 1 or 2 axes, returns (without raising) the requested factors in the requested order and the remaining '
+             'ones in their original order; a GHZ-type tensor is refused', floor=20, style='FDX')
+    m = repo.module('cirq-core/cirq/linalg/transformations.py')
+    rs = np.random.RandomState(11)
+    vecs = []
+    for _ in range(3):
+        v = rs.randn(2) + 1j * rs.randn(2)
+        vecs.append(v / np.linalg.norm(v))
+    rhos = [np.outer(v, v.conj()) for v in vecs]
+
+    def resolver(call):
+        nm = ast.unparse(call.func)
+        t = m.defs.get(nm)
+        return t if isinstance(t, ast.FunctionDef) else None
+
+    def prod_sv(ix):
+        out = np.array(1.0 + 0j)
+        for i in ix:
+            out = np.tensordot(out, vecs[i], axes=0)
+        return out
+
+    def prod_dm(ix):
+        # axes: left indices then right indices
+        k = len(ix)
+        out = np.array(1.0 + 0j)
+        for i in ix:
+            out = np.tensordot(out, rhos[i], axes=0)
+        perm = [2 * j for j in range(k)] + [2 * j + 1 for j in range(k)]
+        return np.transpose(out, perm) if k else out
+
+    def up_to_phase(x, y):
+        x, y = np.asarray(x).ravel(), np.asarray(y).ravel()
+        return x.shape == y.shape and abs(abs(np.vdot(x, y)) - np.linalg.norm(x) * np.linalg.norm(y)) < 1e-7 and abs(np.linalg.norm(x) - np.linalg.norm(y)) < 1e-7
+    for fname, whole, part, same in (('factor_state_vector', prod_sv([0, 1, 2]), prod_sv, up_to_phase),
+                                     ('factor_density_matrix', prod_dm([0, 1, 2]), prod_dm, lambda x, y: np.asarray(x).shape == np.asarray(y).shape and np.allclose(x, y, atol=1e-7))):
+        fn = m.defs.get(fname)
+        if not isinstance(fn, ast.FunctionDef):
+            raise AnalysisError(f'{fname} vanished')
+        for r in (1, 2):
+            for axes in itertools.permutations(range(3), r):
+                it = fdx.NumInterp({'t': whole, 'axes': list(axes), 'validate': True, 'atol': 1e-7})
+                it.resolver = resolver
+                it.builtins.update({'range': range, 'list': list, 'len': len, 'set': set, 'int': int, 'tuple': tuple, 'slice': slice, 'abs': abs})
+                why = ''
+                try:
+                    res = it.call(fn)
+                    rest = [i for i in range(3) if i not in axes]
+                    ok = isinstance(res, tuple) and len(res) == 2 and same(res[0], part(list(axes))) and same(res[1], part(rest))
+                    if not ok:
+                        why = f'{fname}(product of 3 states, axes={list(axes)}) does not return the factors on {list(axes)} and {rest}'
+                except fdx.Raised as ex:
+                    ok, why = False, f'{fname}(product of 3 states, axes={list(axes)}, validate=True) refuses a tensor that factors cleanly ({str(ex)[:60]})'
+                except fdx.Unsupported as ex:
+                    raise AnalysisError(f'cannot interpret {fname}: {ex}')
+                ctx.ob(rid, f'cirq.linalg.transformations.{fname}:axes={list(axes)}', ok, why, m.rel, fn.lineno)
+        # an entangled input must be refused when validating
+        if fname == 'factor_state_vector':
+            ghz = np.zeros((2, 2, 2), dtype=complex)
+            ghz[0, 0, 0] = ghz[1, 1, 1] = 1 / np.sqrt(2)
+        else:
+            g = np.zeros(8, dtype=complex)
+            g[0] = g[7] = 1 / np.sqrt(2)
+            ghz = np.outer(g, g.conj()).reshape((2,) * 6)
+        it = fdx.NumInterp({'t': ghz, 'axes': [0], 'validate': True, 'atol': 1e-7})
+        it.resolver = resolver
+        it.builtins.update({'range': range, 'list': list, 'len': len, 'set': set, 'int': int, 'tuple': tuple, 'slice': slice, 'abs': abs})
+        try:
+            it.call(fn)
+            refused = False
+        except fdx.Raised:
+            refused = True
+        except fdx.Unsupported as ex:
+            raise AnalysisError(f'cannot interpret {fname}: {ex}')
+        ctx.ob(rid, f'cirq.linalg.transformations.{fname}:entangled-refused', refused, '' if refused else f'{fname}(GHZ, [0], validate=True) accepts an entangled tensor', m.rel, fn.lineno)
